@@ -143,6 +143,16 @@ def run_impl(case):
     for alias, name in ALIASES.items():
         if not same(results["rate:" + alias], results["rate:" + name]):
             prob.append(("alias", f"{alias} differs from {name}"))
+        # ... and the threshold-setting aliases, for every method (explicit and default)
+        for m in ("linear", "lower", "higher", None):
+            kw = {} if m is None else {"method": m}
+            try:
+                a = getattr(s, "threshold_at_" + alias)(R, **kw)
+                b = getattr(s, "threshold_at_" + name)(R, **kw)
+            except ValueError:
+                continue   # empty class for that metric: both raise (checked elsewhere)
+            if not same(a, b):
+                prob.append(("alias", f"threshold_at_{alias}(method={m}) differs from threshold_at_{name}(method={m})"))
     cmv = results["cm:cm"]
     if cmv.shape != shp + (2, 2):
         prob.append(("shape", f"cm: shape {cmv.shape}, expected {shp + (2, 2)}"))
